@@ -2,7 +2,9 @@
 agreement, G7 offset capture, F-order serialisation, write targets."""
 from vk import fabio
 from vk.fabio import Num, Ratio, ArrV, BytesV, HdrV, ListAcc, Tup, D
-from vk.model import loc, norm
+import ast
+
+from vk.model import parents, enclosing, loc, norm, walk_no_nested
 
 
 def loop_groups(path):
@@ -111,3 +113,72 @@ def returns_offsets_first(ctx, prefix, res, tuple_ok=True):
             isinstance(i, Num) and i.text().startswith("tell") for i in first.items)
         ctx.check(ok, f"{prefix}.RETURN", fi.site, "returns the per-FAB offsets (in write order) first",
                   f"returns {v.text()[:80]}", where=loc(fi, e.node))
+
+
+def rule_offset_capture(ctx, prefix, fi):
+    """G7 for writers that are not run through the byte-accounting interpreter: the offset recorded for a box is the
+    position of *its* binary file (`H.tell()` of the handle the box is written to) taken in the iteration that writes
+    the box, before that iteration's first write to H.  Decided by provenance of the value appended to an offsets
+    list inside the `with open(..., 'wb') as H` block; a hand-kept byte counter is a finding (it is not the position
+    in the file the box goes to as soon as a level is split over several files)."""
+    site = fi.site
+    pm = parents(fi.node)
+    handles = {}
+    for w in walk_no_nested(fi.node):
+        if isinstance(w, ast.With):
+            for it in w.items:
+                c = it.context_expr
+                if isinstance(c, ast.Call) and norm(c.func) == "open" and it.optional_vars is not None:
+                    mode = norm(c.args[1]) if len(c.args) > 1 else ""
+                    if "b" in mode and ("w" in mode or "a" in mode):
+                        handles[norm(it.optional_vars)] = w
+    if not handles:
+        ctx.unknown(f"{prefix}.G7", site, "no binary file opened for writing in a with-block", key="offset-capture")
+        return
+    verdicts = []
+    for h, w in handles.items():
+        writes = [c for c in ast.walk(w) if isinstance(c, ast.Call) and norm(c.func) == f"{h}.write"]
+        tells = [c for c in ast.walk(w) if isinstance(c, ast.Call) and norm(c.func) == f"{h}.tell"]
+        appends = [c for c in ast.walk(w) if isinstance(c, ast.Call) and isinstance(c.func, ast.Attribute)
+                   and c.func.attr == "append" and len(c.args) == 1]
+        for ap in appends:
+            a = ap.args[0]
+            loop = enclosing(ap, pm, (ast.For, ast.While))
+            first_write = min((x.lineno for x in writes if loop is not None and enclosing(x, pm, (ast.For, ast.While)) is loop
+                               or (loop is not None and any(x is y for y in ast.walk(loop)))), default=None)
+            if isinstance(a, ast.Call) and norm(a.func) == f"{h}.tell":
+                ok = first_write is None or a.lineno < first_write
+                verdicts.append((ok, ap, f"`{norm(ap)}`" + ("" if ok else " is taken after the box was (partly) written")))
+            elif isinstance(a, ast.Name):
+                binds = [n for n in walk_no_nested(fi.node) if isinstance(n, (ast.Assign, ast.AugAssign)) and
+                         norm(n.targets[0] if isinstance(n, ast.Assign) else n.target) == a.id]
+                from_tell = [n for n in binds if isinstance(n, ast.Assign) and isinstance(n.value, ast.Call)
+                             and norm(n.value.func) == f"{h}.tell"]
+                by_hand = [n for n in binds if isinstance(n, ast.AugAssign) or
+                           (isinstance(n, ast.Assign) and isinstance(n.value, ast.Constant))]
+                counts_writes = any(isinstance(n, ast.AugAssign) and any(isinstance(c, ast.Call) and
+                                    norm(c.func) == f"{h}.write" for c in ast.walk(n.value)) for n in binds) or \
+                    any(isinstance(n, ast.AugAssign) and any(isinstance(c, ast.Call) and norm(c.func) in ("len",)
+                                                             for c in ast.walk(n.value)) for n in binds)
+                if from_tell and not by_hand:
+                    t = from_tell[0]
+                    same_loop = enclosing(t, pm, (ast.For, ast.While)) is loop
+                    ok = same_loop and t.lineno < ap.lineno and (first_write is None or t.lineno < first_write)
+                    verdicts.append((ok, ap, f"`{norm(t)}` then `{norm(ap)}`" + ("" if ok else
+                                     " — the position is not taken in the iteration that writes the box, before its first write")))
+                elif by_hand and (counts_writes or not from_tell) and any(
+                        isinstance(n, ast.AugAssign) for n in binds) and tells == [] and counts_writes:
+                    verdicts.append((False, ap, f"`{a.id}` is a byte counter kept by hand ({', '.join(norm(n)[:40] for n in by_hand[:3])}), "
+                                                f"not `{h}.tell()`: it keeps counting across binary files, so every box of the "
+                                                f"second and later files of a level gets an offset shifted by the size of the files "
+                                                f"before it"))
+    if not verdicts:
+        ctx.unknown(f"{prefix}.G7", site, "no offset capture recognised (neither H.tell() provenance nor a hand-kept "
+                                          "write counter)", key="offset-capture")
+        return
+    bad = [v for v in verdicts if not v[0]]
+    ctx.check(not bad, f"{prefix}.G7", site,
+              "the recorded box offset is the position of the box's own file, taken before the box is written: "
+              + "; ".join(v[2] for v in verdicts[:2]),
+              "; ".join(v[2] for v in bad[:2]), key="offset-capture", where=loc(fi, bad[0][1]) if bad else None,
+              semantic=True)
